@@ -26,6 +26,7 @@ type lruScenario struct {
 	// that the harness adds no happens-before edge between two cache calls; decided by the race detector and
 	// an attribution oracle instead of porcupine.
 	NoStamps bool `json:"no_stamps,omitempty"`
+	EmptyKey bool `json:"empty_key,omitempty"` // key index 0 is the empty string
 }
 
 // lruModel: most-recently-used first.
@@ -82,7 +83,7 @@ const lruDefaultCapacity = 1 << 30
 
 func genLRU(seed uint64, tier string) any {
 	r := kit.NewRng(seed)
-	sc := &lruScenario{}
+	sc := &lruScenario{EmptyKey: r.Chance(1, 3)}
 	if r.Chance(1, 16) {
 		genLRUConc(r, sc)
 		sc.NoStamps = r.Chance(1, 2)
@@ -109,7 +110,14 @@ func genLRU(seed uint64, tier string) any {
 	return sc
 }
 
-func keyName(k int) string { return fmt.Sprintf("key-%d", k) }
+// keyName maps a key index to a session key; with emptyKey, index 0 is the empty string (a legal key: the cache is
+// keyed by whatever the client's CacheKey / server name yields).
+func keyName(k int, emptyKey bool) string {
+	if k == 0 && emptyKey {
+		return ""
+	}
+	return fmt.Sprintf("key-%d", k)
+}
 
 func execLRU(t *testing.T, scAny any, keepLog bool) *Outcome {
 	sc := scAny.(*lruScenario)
@@ -134,11 +142,11 @@ func execLRU(t *testing.T, scAny any, keepLog bool) *Outcome {
 		for i, op := range sc.Ops[:n] {
 			switch op.Op {
 			case "put", "reput":
-				c.Put(keyName(op.Key), states[valOf[i]])
+				c.Put(keyName(op.Key, sc.EmptyKey), states[valOf[i]])
 			case "putnil":
-				c.Put(keyName(op.Key), nil)
+				c.Put(keyName(op.Key, sc.EmptyKey), nil)
 			case "get":
-				c.Get(keyName(op.Key))
+				c.Get(keyName(op.Key, sc.EmptyKey))
 			}
 		}
 	}
@@ -178,7 +186,7 @@ func execLRU(t *testing.T, scAny any, keepLog bool) *Outcome {
 		case "put", "reput":
 			before := len(model.order)
 			_, had := model.val[op.Key]
-			cache.Put(keyName(op.Key), states[valOf[i]])
+			cache.Put(keyName(op.Key, sc.EmptyKey), states[valOf[i]])
 			model.put(op.Key, valOf[i]+1)
 			if !had && before >= model.cap {
 				evictions++
@@ -192,10 +200,10 @@ func execLRU(t *testing.T, scAny any, keepLog bool) *Outcome {
 			} else {
 				o.Counters["probe.putnil_present"]++
 			}
-			cache.Put(keyName(op.Key), nil)
+			cache.Put(keyName(op.Key, sc.EmptyKey), nil)
 			model.del(op.Key)
 		case "get":
-			got, ok := cache.Get(keyName(op.Key))
+			got, ok := cache.Get(keyName(op.Key, sc.EmptyKey))
 			want, wok := model.get(op.Key)
 			h.WriteString(fmt.Sprintf("get %d %v %d", op.Key, ok, ids[got]))
 			if ok != wok || (ok && ids[got] != want) || (ok && got == nil) {
@@ -214,7 +222,7 @@ func execLRU(t *testing.T, scAny any, keepLog bool) *Outcome {
 		apply(cp, i+1)
 		present := 0
 		for k := 0; k < sc.Keys; k++ {
-			got, ok := cp.Get(keyName(k))
+			got, ok := cp.Get(keyName(k, sc.EmptyKey))
 			want, wok := model.val[k]
 			if ok {
 				present++
